@@ -463,6 +463,22 @@ fn do_resolve<Fd: AsFd, P: AsRef<Path>>(
         }
     }
 
+    // If the walk ended on the root itself (only ".." or "/" were left after
+    // the last real component), `current` is still a copy of the descriptor the
+    // caller gave us -- with whatever access mode and flags it was opened with.
+    // Hand out a fresh O_PATH handle instead, like openat2(2) does and like we
+    // do for every other component.
+    if Rc::ptr_eq(&current, &root) {
+        current = Rc::new(
+            syscalls::openat(&*root, ".", OpenFlags::O_PATH, 0).map_err(|err| {
+                ErrorImpl::RawOsError {
+                    operation: "open fresh handle to root".into(),
+                    source: err,
+                }
+            })?,
+        );
+    }
+
     // Make sure that the path is what we expect...
     // MSRV(1.69): Remove &*.
     check_current(&*current, &*root, &expected_path).wrap("check final handle didn't escape")?;
